@@ -147,11 +147,53 @@ fn show_info(i: &Option<AccountInfo>) -> String {
     }
 }
 
+fn code_id(h: &revm_primitives::B256) -> usize {
+    if *h == KECCAK_EMPTY { 0 } else { (1..=3).find(|id| code(*id).unwrap().hash_slow() == *h).unwrap_or(9) }
+}
+
+/// `n:b:c` (c = code id) or `-`: the account rendering of the Lean `acct` session.
+fn model_info(i: &Option<AccountInfo>) -> String {
+    match i {
+        None => "-".to_owned(),
+        Some(i) => format!("{}:{}:{}", i.nonce, i.balance, code_id(&i.code_hash)),
+    }
+}
+
+/// The cache entries of account `a` on both sides: `<status> <info> <status> <info>`.
+fn model_entries(p: &ParallelState<MemDb>, s: &State<revm_database::WrapDatabaseRef<&MemDb>>, a: usize) -> String {
+    let pe = match p.cache.accounts.get(&addr(a)) {
+        Some(e) => format!("{:?} {}", e.status, model_info(&e.account)),
+        None => "uncached -".to_owned(),
+    };
+    let se = match s.cache.accounts.get(&addr(a)) {
+        Some(e) => format!("{:?} {}", e.status, model_info(&e.account.as_ref().map(|x| x.info.clone()))),
+        None => "uncached -".to_owned(),
+    };
+    format!("{pe} {se}")
+}
+
+/// The committed journal account as an operation of the Lean model (the case split of
+/// `apply_account_state`).
+fn model_commit_op(account: &Account) -> String {
+    let slots: BTreeMap<U256, U256> = account.changed_storage_slots().map(|(k, v)| (*k, v.present_value)).collect();
+    let slots = slots.iter().map(|(k, v)| format!(" {k}={v}")).collect::<String>();
+    if account.is_selfdestructed() {
+        "sd".to_owned()
+    } else if account.is_created() {
+        format!("create {}{}", model_info(&Some(account.info.clone())), slots)
+    } else if account.is_empty() {
+        "touch".to_owned()
+    } else {
+        format!("change {}{}", model_info(&Some(account.info.clone())), slots)
+    }
+}
+
 /// Compare everything readable. `what` names the point in the history.
-fn compare_reads(p: &mut ParallelState<MemDb>, s: &mut State<revm_database::WrapDatabaseRef<&MemDb>>, what: &str) -> Option<String> {
+fn compare_reads(p: &mut ParallelState<MemDb>, s: &mut State<revm_database::WrapDatabaseRef<&MemDb>>, what: &str, mlog: &mut [Vec<String>]) -> Option<String> {
     for a in 0..N_ADDR {
         let pi = p.basic_ref(addr(a)).unwrap();
         let si = s.basic(addr(a)).unwrap();
+        mlog[a].push(format!("basic ; {}", model_info(&pi)));
         if show_info(&pi) != show_info(&si) {
             return Some(format!("{what}: account {a}: ParallelState {} vs revm State {}", show_info(&pi), show_info(&si)));
         }
@@ -167,6 +209,7 @@ fn compare_reads(p: &mut ParallelState<MemDb>, s: &mut State<revm_database::Wrap
         for k in 0..N_SLOT {
             let pv = p.storage_ref(addr(a), U256::from(k)).unwrap();
             let sv = s.storage(addr(a), U256::from(k)).unwrap();
+            mlog[a].push(format!("read {k} ; {pv}"));
             if pv != sv {
                 return Some(format!("{what}: slot {k} of account {a}: ParallelState {pv} vs revm State {sv}"));
             }
@@ -213,16 +256,26 @@ fn compare_reverts(a: &revm_database::BundleState, b: &revm_database::BundleStat
     None
 }
 
-fn history_case(rng: &mut Rng, hist: &mut BTreeMap<&'static str, u64>) -> (Vec<String>, Option<String>) {
+fn history_case(rng: &mut Rng, hist: &mut BTreeMap<&'static str, u64>, mlog: &mut Vec<Vec<String>>) -> (Vec<String>, Option<String>) {
     let db = gen_db(rng);
     let mut log: Vec<String> = Vec::new();
+    // per account: the session of the Lean account-status machine (Model/AcctState)
+    *mlog = (0..N_ADDR)
+        .map(|a| {
+            let acc = db.accounts.get(&addr(a));
+            let slots = (0..N_SLOT).map(|k| acc.and_then(|x| x.storage.get(&U256::from(k)).copied()).unwrap_or_default().to_string()).collect::<Vec<_>>().join(" ");
+            vec!["acct".to_owned(), format!("db {} {}", model_info(&acc.map(|x| x.info.clone())), slots)]
+        })
+        .collect();
+    let idx_of = |x: &Address| (0..N_ADDR).find(|a| addr(*a) == *x).unwrap();
     let with_bundle = true;
     let mut p = ParallelState::new(db.clone(), with_bundle, false);
     let mut s = StateBuilder::new().with_bundle_update().with_database_ref(&db).build();
     let blocks = 1 + rng.below(3);
     let accumulate = rng.chance(1, 2);
     let parallel_take = rng.chance(1, 2);
-    log.push(format!("blocks={blocks} accumulate_bundle={accumulate} parallel_take_bundle={parallel_take}"));
+    let handoff_reverts = rng.chance(1, 2);
+    log.push(format!("blocks={blocks} accumulate_bundle={accumulate} parallel_take_bundle={parallel_take} handoff_reverts={handoff_reverts}"));
     for blk in 0..blocks {
         let n_ops = 1 + rng.below(6);
         for op in 0..n_ops {
@@ -236,7 +289,11 @@ fn history_case(rng: &mut Rng, hist: &mut BTreeMap<&'static str, u64>) -> (Vec<S
                     log.push(format!("{what}: increment_balances {incs:?}"));
                     *hist.entry("increment").or_default() += 1;
                     p.increment_balances(incs.clone()).unwrap();
-                    s.increment_balances(incs).unwrap();
+                    s.increment_balances(incs.clone()).unwrap();
+                    for (x, amt) in &incs {
+                        let a = idx_of(x);
+                        mlog[a].push(format!("inc {amt} ; {}", model_entries(&p, &s, a)));
+                    }
                 }
                 1 => {
                     let who: Vec<Address> = (0..1 + rng.below(2)).map(|_| addr(rng.below(N_ADDR))).collect();
@@ -244,7 +301,11 @@ fn history_case(rng: &mut Rng, hist: &mut BTreeMap<&'static str, u64>) -> (Vec<S
                     log.push(format!("{what}: drain_balances {who:?}"));
                     *hist.entry("drain").or_default() += 1;
                     let pd = p.drain_balances(who.clone()).unwrap();
-                    let sd = s.drain_balances(who).unwrap();
+                    let sd = s.drain_balances(who.clone()).unwrap();
+                    for (x, amt) in who.iter().zip(pd.iter()) {
+                        let a = idx_of(x);
+                        mlog[a].push(format!("drain {amt} ; {}", model_entries(&p, &s, a)));
+                    }
                     if pd != sd {
                         return (log, Some(format!("{what}: drained amounts differ: {pd:?} vs {sd:?}")));
                     }
@@ -259,8 +320,12 @@ fn history_case(rng: &mut Rng, hist: &mut BTreeMap<&'static str, u64>) -> (Vec<S
                     for a in chosen {
                         // both sides load the account first, as execution does
                         let pre = s.basic(addr(a)).unwrap();
-                        let _ = p.basic_ref(addr(a)).unwrap();
+                        let ppre = p.basic_ref(addr(a)).unwrap();
+                        mlog[a].push(format!("basic ; {}", model_info(&ppre)));
                         let cur: Vec<U256> = (0..N_SLOT).map(|k| s.storage(addr(a), U256::from(k)).unwrap()).collect();
+                        for (k, v) in cur.iter().enumerate() {
+                            mlog[a].push(format!("sread {k} ; {v}"));
+                        }
                         let (account, label) = gen_change(rng, &pre, |k| cur[k]);
                         *hist.entry(label).or_default() += 1;
                         desc.push(format!("{a}:{label}:{}:{:?}", show_info(&Some(account.info.clone())), account.changed_storage_slots().map(|(k, v)| (*k, v.present_value)).collect::<BTreeMap<_, _>>()));
@@ -268,14 +333,18 @@ fn history_case(rng: &mut Rng, hist: &mut BTreeMap<&'static str, u64>) -> (Vec<S
                     }
                     log.push(format!("{what}: commit {desc:?}"));
                     p.commit(changes.clone());
-                    s.commit(changes);
+                    s.commit(changes.clone());
+                    for (x, account) in changes.iter() {
+                        let a = idx_of(x);
+                        mlog[a].push(format!("{} ; {}", model_commit_op(account), model_entries(&p, &s, a)));
+                    }
                 }
             }
             if let Some(d) = compare_transitions(&p, &s, &what) {
                 return (log, Some(d));
             }
             if rng.chance(1, 3) {
-                if let Some(d) = compare_reads(&mut p, &mut s, &what) {
+                if let Some(d) = compare_reads(&mut p, &mut s, &what, mlog) {
                     return (log, Some(d));
                 }
             }
@@ -283,7 +352,25 @@ fn history_case(rng: &mut Rng, hist: &mut BTreeMap<&'static str, u64>) -> (Vec<S
         let reverts = rng.chance(1, 2);
         let retention = || if reverts { BundleRetention::Reverts } else { BundleRetention::PlainState };
         log.push(format!("block {blk}: merge_transitions({:?})", retention()));
-        if parallel_take && !accumulate {
+        let last = blk + 1 == blocks;
+        if accumulate && !last {
+            // the bundle is carried into the next block (pre-populated bundle)
+            p.merge_transitions(retention());
+            s.merge_transitions(retention());
+            if handoff_reverts {
+                // as a caller persisting changesets does: the reverts leave, the state stays
+                log.push(format!("block {blk}: take_all_reverts"));
+                *hist.entry("reverts-handed-off").or_default() += 1;
+                let pr = p.bundle_state.take_all_reverts();
+                let sr = s.bundle_state.take_all_reverts();
+                if format!("{:?}", pr.len()) != format!("{:?}", sr.len()) {
+                    return (log, Some(format!("block {blk}: taken reverts differ in length")));
+                }
+            }
+        } else if parallel_take {
+            if accumulate {
+                *hist.entry("parallel-take-on-prepopulated-bundle").or_default() += 1;
+            }
             let pb = p.parallel_take_bundle(retention());
             s.merge_transitions(retention());
             let sb = s.take_bundle();
@@ -293,15 +380,13 @@ fn history_case(rng: &mut Rng, hist: &mut BTreeMap<&'static str, u64>) -> (Vec<S
         } else {
             p.merge_transitions(retention());
             s.merge_transitions(retention());
-            if !accumulate || blk + 1 == blocks {
-                let pb = p.take_bundle();
-                let sb = s.take_bundle();
-                if let Some(d) = compare_bundles(&sb, &pb).or_else(|| compare_reverts(&pb, &sb)) {
-                    return (log, Some(format!("block {blk}: take_bundle: {d}")));
-                }
+            let pb = p.take_bundle();
+            let sb = s.take_bundle();
+            if let Some(d) = compare_bundles(&sb, &pb).or_else(|| compare_reverts(&pb, &sb)) {
+                return (log, Some(format!("block {blk}: take_bundle: {d}")));
             }
         }
-        if let Some(d) = compare_reads(&mut p, &mut s, &format!("after block {blk}")) {
+        if let Some(d) = compare_reads(&mut p, &mut s, &format!("after block {blk}"), mlog) {
             return (log, Some(d));
         }
     }
@@ -317,8 +402,19 @@ pub fn cmd_cache_history(args: &Args) -> J {
     let mut ok = 0usize;
     let mut distinct = std::collections::BTreeSet::new();
     let mut samples = Vec::new();
+    let gmodel = args.str("gmodel", "/verif/lean/.lake/build/bin/gmodel");
+    let mut session = String::new();
+    let mut session_of: Vec<(u64, usize, Vec<String>)> = Vec::new();
+    let mut model_ops = 0usize;
     for case in 0..cases {
-        let (log, verdict) = history_case(&mut rng, &mut hist);
+        let mut mlog: Vec<Vec<String>> = Vec::new();
+        let (log, verdict) = history_case(&mut rng, &mut hist, &mut mlog);
+        for (a, lines) in mlog.into_iter().enumerate() {
+            model_ops += lines.len().saturating_sub(2);
+            session.push_str(&lines.join("\n"));
+            session.push_str("\nend\n");
+            session_of.push((case, a, lines));
+        }
         distinct.insert(log.join("|"));
         if samples.len() < 2 {
             samples.push(J::Arr(log.iter().map(|l| J::s(l.clone())).collect()));
@@ -336,8 +432,32 @@ pub fn cmd_cache_history(args: &Args) -> J {
             }
         }
     }
+    // replay every account's operations through the Lean account-status machine (both sides)
+    let mut model_ok = 0usize;
+    match crate::lean::run_gmodel(&gmodel, &session) {
+        Ok(lines) => {
+            if lines.len() != session_of.len() {
+                divergences.push(J::obj(vec![("kind", J::s("correspondence")), ("detail", J::s(format!("acct sessions: {} answers for {} sessions", lines.len(), session_of.len())))]));
+            }
+            for (line, (case, a, ops)) in lines.iter().zip(session_of.iter()) {
+                if line.starts_with("ok ") {
+                    model_ok += 1;
+                } else if divergences.len() < 8 {
+                    divergences.push(J::obj(vec![
+                        ("kind", J::s("correspondence")),
+                        ("detail", J::s(format!("cache history case {case} account {a}: Lean account-status machine (Model/AcctState): {line}"))),
+                        ("history", J::Arr(ops.iter().map(|l| J::s(l.clone())).collect())),
+                    ]));
+                }
+            }
+        }
+        Err(e) => divergences.push(J::obj(vec![("kind", J::s("correspondence")), ("detail", J::s(format!("gmodel: {e}")))])),
+    }
     J::obj(vec![
-        ("check", J::s("cache-history (ParallelState vs revm State: transitions, reads, bundles, reverts)")),
+        ("check", J::s("cache-history (ParallelState vs revm State: transitions, reads, bundles, reverts; every account's operations replayed through the Lean account-status machine G.step / S.step)")),
+        ("acct_sessions", J::n(session_of.len())),
+        ("acct_sessions_conforming", J::n(model_ok)),
+        ("acct_model_operations", J::n(model_ops)),
         ("seed", J::n(seed as usize)),
         ("cases", J::n(cases as usize)),
         ("conforming", J::n(ok)),
@@ -440,7 +560,7 @@ fn race_case(rng: &mut Rng, strategy: Strategy, sname: &str, seed: u64, f1_shape
     ));
     session.push_str("end\n");
     let description = format!("{sname} schedule; {}", desc.join("; "));
-    let verdict = compare_reads(&mut p, &mut s, "after the race");
+    let verdict = compare_reads(&mut p, &mut s, "after the race", &mut vec![Vec::new(); N_ADDR]);
     (description, verdict, report.stall, session)
 }
 
@@ -482,7 +602,7 @@ fn race_accounts_case(rng: &mut Rng, strategy: Strategy, sname: &str, seed: u64)
             verdict = Some(format!("account reader {k} returned {shown}, which no committed prefix holds ({prefix_values:?})"));
         }
     }
-    let verdict = verdict.or_else(|| compare_reads(&mut p, &mut s, "after the account race"));
+    let verdict = verdict.or_else(|| compare_reads(&mut p, &mut s, "after the account race", &mut vec![Vec::new(); N_ADDR]));
     (description, verdict, report.stall)
 }
 
